@@ -3,6 +3,14 @@
 import json, os, re, sys
 ROOT = os.path.join(os.path.dirname(os.path.abspath(__file__)), '..', 'seeded')
 NEEDS = {
+ 'C13_5': "rotor_between_objects / rotor_between_lines on two lines of exactly opposite direction displaced sideways (null-C branch, gamma > 0)",
+ 'C13_6': "interpolate_rotors between two poses that differ in scale (TR to TRS); in compiled mode the NaN it produces makes exp() loop forever",
+ 'C15_5': "classify() of a Round with non-zero radius whose direction blade is not a unit blade (2, -3*e1, e1+e2, 2*e12)",
+ 'C15_6': "Round(E, p, rho).mv with an imaginary radius",
+ 'C16_5': "exp on a layout whose blade order does not store the scalar first, operand with a coefficient on the first stored blade",
+ 'C16_6': "tan / tanh in an algebra with three or more generators on an argument mixing odd and even grades or a non-simple bivector",
+ 'C18_5': "Frame.En or Frame.inv used once, then a frame derived through numpy (slice, reversal, arithmetic, item assignment)",
+ 'C18_6': "MVArray.op() on a 1-D array with more elements than the algebra has dimensions, elements not all vectors",
  'C09_5': "factorise() of a multiple of a single basis blade with a negative coefficient (e2^e1, -2.5*e134)",
  'C09_6': "(1+v).isVersor() with v a basis vector squaring to -1 (any signature with a negative direction)",
  'C10_5': "jitted grade selection on a layout whose blade order does not store each grade contiguously (bitmap order, n >= 3)",
